@@ -367,6 +367,13 @@ impl SeenModel {
                         {
                             may = true;
                         }
+                        // a plain dependency rebuilt (to the same bytes) since t's
+                        // last build, e.g. by an earlier forced `redo d`
+                        if cx.plain_target(d)
+                            && self.seen.get(d).map_or(false, |sd| sd.built_seq > s.built_seq)
+                        {
+                            may = true;
+                        }
                     }
                 }
                 if may {
